@@ -123,6 +123,13 @@ def _same(r, v):
     return r is v or (type(r) is type(v) and (r == v or (r != r and v != v)))
 
 
+def _str_is(x, y):
+    """x == y for strings, False when x is not a string at all (None, an object)"""
+    if x is None or hasattr(x, "fields") or isinstance(x, (list, dict)):
+        return False
+    return S.str_eq(x, y)
+
+
 def _cls(r) -> str:
     return getattr(r, "cls", None) or type(r).__name__
 
@@ -497,6 +504,8 @@ def with_comments(kind: str) -> VF.FunctionContract:
 
     def lead(r):
         lc = S.attr(sec(r)[0], "leading_comments")
+        if lc is None:
+            return []
         return S.items(lc) if not isinstance(lc, list) else lc
 
     return VF.FunctionContract(
@@ -509,9 +518,35 @@ def with_comments(kind: str) -> VF.FunctionContract:
         posts={
             "one-assignment": lambda a, r: _cls(r) == "Document" and len(sec(r)) == 1 and _cls(sec(r)[0]) == "Assignment",
             "value-is-token-value": lambda a, r: len(sec(r)) == 1 and _same(S.attr(sec(r)[0], "value"), S.attr(_tk(a, 6), "value")),
-            "leading-comment-is-the-comment-token-text": lambda a, r: len(sec(r)) == 1 and len(lead(r)) == 1 and S.str_eq(lead(r)[0], S.attr(_tk(a, 2), "value")),
-            "trailing-comment-is-the-comment-token-text": lambda a, r: len(sec(r)) == 1 and S.str_eq(S.attr(sec(r)[0], "trailing_comment"), S.attr(_tk(a, 7), "value")),
-            "no-document-trailing-comments": lambda a, r: len(S.items(S.attr(r, "trailing_comments")) if not isinstance(S.attr(r, "trailing_comments"), list) else S.attr(r, "trailing_comments")) == 0,
+            "leading-comment-is-the-comment-token-text": lambda a, r: len(sec(r)) == 1 and len(lead(r)) == 1 and _str_is(lead(r)[0], S.attr(_tk(a, 2), "value")),
+            "trailing-comment-is-the-comment-token-text": lambda a, r: len(sec(r)) == 1 and _str_is(S.attr(sec(r)[0], "trailing_comment"), S.attr(_tk(a, 7), "value")),
+            "no-document-trailing-comments": lambda a, r: S.attr(r, "trailing_comments") is not None and len(S.items(S.attr(r, "trailing_comments")) if not isinstance(S.attr(r, "trailing_comments"), list) else S.attr(r, "trailing_comments")) == 0,
+        },
+        raises=(),
+    )
+
+
+def trailing_comment_after_multiline_list(k1: str, k2: str) -> VF.FunctionContract:
+    """KEY :: [ NL v1 , NL v2 NL ] // c  -  the canonical layout of a structured list with an end-of-line comment: the
+    comment (on a later line than the key; token lines are symbolic) is still this assignment's trailing comment"""
+    spine = [("IDENTIFIER", "sym"), ("ASSIGN", None), ("LIST_START", None), ("NEWLINE", None), _indent("n1"), (k1, "sym"), ("COMMA", None), ("NEWLINE", None), _indent("n2"), (k2, "sym"), ("NEWLINE", None), ("LIST_END", None), ("COMMENT", "sym"), ("NEWLINE", None), ("EOF", None)]
+    toks = _toks(spine)
+
+    def its(r):
+        return S.items(S.attr(S.attr(r, "value"), "items"))
+
+    return VF.FunctionContract(
+        PARSER,
+        "Parser.parse_section",
+        label=f"#KEY::[multi-line {k1},{k2}] // c",
+        inline_depth=8,
+        setup=lambda I: setattr(I, "recursion_ok", {PARSER + ":Parser.parse_value"}),
+        params={"self": _parser(toks, nested=False), "base_indent": VF.Const(0)},
+        pre=_pre([p for p, k in ((5, k1), (9, k2)) if k == "NUMBER"], depth=False),
+        posts={
+            "is-assignment-of-a-two-item-list": lambda a, r: _cls(r) == "Assignment" and _cls(S.attr(r, "value")) == "ListValue" and len(its(r)) == 2,
+            "items-are-token-values": lambda a, r: _cls(r) == "Assignment" and _cls(S.attr(r, "value")) == "ListValue" and len(its(r)) == 2 and S.And(_same(its(r)[0], S.attr(_tk(a, 5), "value")), _same(its(r)[1], S.attr(_tk(a, 9), "value"))),
+            "comment-after-the-closing-bracket-is-the-trailing-comment": lambda a, r: _cls(r) == "Assignment" and _str_is(S.attr(r, "trailing_comment"), S.attr(_tk(a, 12), "value")),
         },
         raises=(),
     )
